@@ -423,7 +423,14 @@ PROPS = {
                    "replies (readMessage, both parse phases), hello (establish), the agent's candidate reader "
                    "(readCandidatesDoc / readCandidates) and installed-policies reader (readInstalledDoc / readInstalledEv) "
                    "(reply_/hello_/candidates_/installed_rename_invariant, Lemmas/Rename.lean: one commutation lemma per "
-                   "loop; no reader compares a raw element name with a constant). The remaining tokenizer-level rewrites "
+                   "loop; no reader compares a raw element name with a constant). Misc around the root element (XML "
+                   "document ::= prolog element Misc*) is decided by theorems too: any number of comments in front of the "
+                   "root element and between the root's end tag and EOF leave readMessage / establish unchanged for ALL "
+                   "event lists body ++ [Eof], every configuration, reply kind and oracle, hence for every document of the "
+                   "reply and hello grammars without any well-formedness hypothesis (reply_/hello_leading_comments_invariant, "
+                   "reply_/hello_trailing_comments_invariant, reply_/hello_misc_invariant over replyDocMisc / helloDocMisc; "
+                   "Lemmas/Misc.lean: fuel-monotonicity and one commutation lemma per reader loop; a PI there is rejected: "
+                   "trailing_pi_cex). The remaining tokenizer-level rewrites "
                    "(inter-element whitespace, attribute order/quoting) are invisible in the event list and are covered by "
                    "the metamorphic run only.",
         level_note="The metamorphic run (real code: original vs one rewrite at one target) is testing; it is what ties the "
